@@ -308,9 +308,9 @@ class SandboxedEnvironment(Environment):
                         fmt = self.wrap_str_format(value)
                         if fmt is not None:
                             return fmt
-                        if self.is_safe_attribute(obj, argument, value):
+                        if self.is_safe_attribute(obj, attr, value):
                             return value
-                        return self.unsafe_undefined(obj, argument)
+                        return self.unsafe_undefined(obj, attr)
         return self.undefined(obj=obj, name=argument)
 
     def getattr(self, obj: t.Any, attribute: str) -> t.Any | Undefined:
